@@ -27,7 +27,7 @@ func init() {
 		"logrus (io.Discard) and prometheus (fresh registry) are linked but uninstrumented",
 	}
 	props = append(props, &Prop{ID: "C14", Harness: "dispatch", Level: "exploration",
-		QuickRuns: 1200, QuickChunk: 20, QuickWallS: 60, ThoroughRuns: 60000, ThoroughChunk: 20, ThoroughWallS: 600, MaxSteps: 1500000, RunWallS: 900,
+		QuickRuns: 2000, QuickChunk: 20, QuickWallS: 110, ThoroughRuns: 60000, ThoroughChunk: 20, ThoroughWallS: 600, MaxSteps: 1500000, RunWallS: 900,
 		Rule:         "C14: per run the config knobs (probe/sync/poll intervals, boot/idle/probe/shutdown/TERM/signal/stale-lock timeouts, probe rate, create concurrency), 1-3 instance types, quota 1-8, API page size, 1-40 containers (120 thorough) of mixed priority/size arriving over time, a subset of 20 fault kinds at a drawn rate and a subset of 13 environment event kinds are drawn; the real dispatcher runs until everything settled or 10 simulated minutes (2 h thorough).",
 		Real:         real,
 		Stub:         stub,
@@ -37,7 +37,7 @@ func init() {
 		Technique:    "deterministic simulation with fault injection: instrumented real scheduler+pool+queue under a seeded lock-level scheduler and simulated clock, against cloud/VM/API models; invariants over ground-truth process tables and the delivered-message history",
 		DesignRef:    "5.14"})
 	props = append(props, &Prop{ID: "C15", Harness: "dispatch", Level: "exploration",
-		QuickRuns: 1000, QuickChunk: 20, QuickWallS: 60, ThoroughRuns: 50000, ThoroughChunk: 20, ThoroughWallS: 600, MaxSteps: 6000000, RunWallS: 900,
+		QuickRuns: 1500, QuickChunk: 20, QuickWallS: 90, ThoroughRuns: 50000, ThoroughChunk: 20, ThoroughWallS: 600, MaxSteps: 6000000, RunWallS: 900,
 		Rule:         "C15: C14's system and draws with 1-20 containers (60 thorough) and process times capped at 30 s + 40 s when more than 6 containers are drawn; a fault phase of 15-600 simulated seconds (faults, events, and in half of the runs a dispatcher death and a new dispatcher after 0.1-200 s), then a quiet phase in which nothing is injected, new VMs are healthy and the operator releases held instances; the run ends when everything settled or B simulated time after the quiet phase began (B = 10 x the worst-case fault-free need of the drawn workload - ceil(n/quota) waves of boot + longest observed process time + probe + poll interval - which is about 100 x the typical need; at least 2 h, at most 6 h of simulated time).",
 		Real:         real,
 		Stub:         stub,
